@@ -14,6 +14,7 @@ This private submodule is *not* intended for importation by downstream callers.
 '''
 
 # ....................{ IMPORTS                            }....................
+from beartype.claw._package._clawpkgmake import make_conf_hookable
 from beartype.claw._package.clawpkgtrie import (
     remove_beartype_pathhook_unless_packages_trie)
 from beartype.typing import (
@@ -117,7 +118,12 @@ def beartyping(
             # beartyping(...):" block has *NOT* itself called the beartype_all()
             # function with a conflicting beartype configuration. In this
             # case...
-            if claw_state.packages_trie_whitelist.conf_if_hooked == conf:
+            #
+            # Note that the beartype_all() function called above registered the
+            # hookable variant of the passed beartype configuration rather than
+            # this configuration itself, which thus *CANNOT* be compared as is.
+            if claw_state.packages_trie_whitelist.conf_if_hooked == (
+                make_conf_hookable(conf)):
                 # Restore the prior global beartype configuration if any.
                 claw_state.packages_trie_whitelist.conf_if_hooked = (
                     packages_trie_conf_if_hooked_old)
